@@ -142,6 +142,12 @@ func (w *Writer) zeroAfterTail() error {
 	if dirty {
 		return w.wf.Sync()
 	}
+	if w.writer.writeOffset > 0 {
+		// The tail holds committed entries that Open is about to report (and may
+		// record as a sealed segment). Whoever wrote them may have failed to make
+		// the file's directory entry durable, so do it before they are relied on.
+		return w.wf.Sync()
+	}
 	return nil
 }
 
